@@ -44,6 +44,8 @@
     the text written by the command line is `-1` iff nothing is eligible (plate 0 is written `0`) → `C06_cli_writes_cliText`,
         `C06_sentinel_iff_nothing_eligible` (with `toString_plate_id_ne_sentinel`; hypothesis: plate ids are non-negative)
     Regression (not a clause): `C06_S7_load_drops_nonfinite_counterexample` (S7-C06: load keeps only finite scores)
+    "no other allowed plate has a strictly lower score" with NO tolerance → `C06_selection_exact_minimiser`
+    Regression (not a clause): `C06_S8_tolerance_tie_break_counterexample` (S8-C06: lowest id within np.isclose of the best)
     Regression (not a clause): `C06_S5_falsy_plate_zero_counterexample` (S5-C06: `if not selected_plate_id` writes -1 for plate 0)
 -/
 import Batchie.Lemmas.Scores
